@@ -1,5 +1,6 @@
 /-
-  C10 lemmas, part 4: what one round of `_ical_pull` does to buffer, stash size and the progress measure.
+  C10 lemmas, part 4: what one round of `_ical_pull` does to buffer and progress measure
+  (the stash is no longer bounded: it grows with the line).
 -/
 import Echse.Lemmas.Ical3
 namespace Echse.Ical
@@ -54,15 +55,6 @@ theorem procStep_not_need (p : Parser) : (procStep p).2 ≠ some .need := by
     · exact procRes_not_need _
     · simp
 
-theorem procStep_stash_lt (p : Parser) (h : p.stash.length < stashSize) :
-    (procStep p).1.stash.length < stashSize := by
-  unfold procStep
-  split
-  · simp [stashSize]
-  · split
-    · rw [procRes_fst, doProc_stash]; simp [stashSize]
-    · exact h
-
 theorem copyRest_buf (p : Parser) : (copyRest p).buf = p.buf := by
   unfold copyRest
   split
@@ -87,25 +79,11 @@ theorem copyRest_comp (p : Parser) : (copyRest p).comp = p.comp := by
   · rfl
   · split <;> rfl
 
-theorem copyRest_stash_lt (p : Parser) (h : p.stash.length < stashSize) :
-    (copyRest p).stash.length < stashSize := by
-  unfold copyRest
-  split
-  · exact h
-  · split
-    · rename_i o ho
-      have := esccpy_some_lt (stashSize - p.stash.length) _ o _ (by omega) (Prod.ext ho rfl)
-      simp; omega
-    · simp [stashSize]
-
 theorem stashRest_buf (p : Parser) (s : Bool) : (stashRest p s).1.buf = p.buf := copyRest_buf p
 
 /-- the buffer is used up (`BI = p->bsz`) -/
 theorem stashRest_bix (p : Parser) (s : Bool) : (stashRest p s).1.bix = p.buf.length := by
   show (copyRest p).buf.length = _; rw [copyRest_buf]
-
-theorem stashRest_stash_lt (p : Parser) (s : Bool) (h : p.stash.length < stashSize) :
-    (stashRest p s).1.stash.length < stashSize := copyRest_stash_lt p h
 
 theorem takeLine_buf (p : Parser) (e : Nat) : (takeLine p e).buf = p.buf := by
   unfold takeLine
@@ -139,17 +117,6 @@ theorem takeLine_log (p : Parser) (e : Nat) : (takeLine p e).log = p.log := by
 
 theorem doProc_eolp (p : Parser) : (doProc p).1.eolp = p.eolp := rfl
 
-theorem takeLine_stash_lt (p : Parser) (e : Nat) (h : p.stash.length < stashSize) :
-    (takeLine p e).stash.length < stashSize := by
-  unfold takeLine
-  split
-  · exact h
-  · split
-    · rename_i o ho
-      have := esccpy_some_lt (stashSize - p.stash.length) _ o _ (by omega) (Prod.ext ho rfl)
-      simp; omega
-    · exact h
-
 theorem preChop_buf (p : Parser) : (preChop p).buf = p.buf := by
   unfold preChop; split <;> rfl
 
@@ -181,22 +148,6 @@ theorem round_buf (p : Parser) : (round p).1.buf = p.buf := by
   split
   · rw [procStep_buf]; rfl
   · rw [chopR_buf, preChop_buf]
-
-theorem chopR_stash_lt (p : Parser) (h : p.stash.length < stashSize) :
-    (chopR p).1.stash.length < stashSize := by
-  unfold chopR
-  split
-  · exact stashRest_stash_lt p false h
-  · split
-    · exact stashRest_stash_lt p true h
-    · exact procStep_stash_lt _ (takeLine_stash_lt p _ h)
-
-theorem round_stash_lt (p : Parser) (h : p.stash.length < stashSize) :
-    (round p).1.stash.length < stashSize := by
-  unfold round
-  split
-  · exact procStep_stash_lt _ h
-  · exact chopR_stash_lt _ (by rw [preChop_stash]; exact h)
 
 theorem mu_unmarked (p : Parser) (h : p.eolp = false) : mu p = p.buf.length - p.bix := by
   unfold mu Marked; simp [h]
